@@ -22,7 +22,9 @@ EXPLANATION = (
     "comprehensions; C08-R4 checks the placement errors (break/continue outside a loop, return "
     "outside a function, second star in every user target pattern that reaches the output, star "
     "import) and that the raise precedes any state update; C08-R5 checks that every field with "
-    "run-time meaning of every supported statement kind is consumed by its builder."
+    "run-time meaning of every supported statement kind is consumed by its builder; C08-R6 every "
+    "statement of a block is handed to the statement driver on every path of _iter_branch (a statement "
+    "that is left out unconverted is never validated)."
 )
 ASSUMPTIONS = ["errors raised by ast.parse / symtable themselves are stdlib behaviour"]
 
@@ -405,4 +407,38 @@ def _c07r4(ctx):
     return r(ctx)
 
 
-RULES = [("C06-R8", _c06r8), ("C06-R1", _c06r1), ("C07-R4", _c07r4), ("C08-R1", rule_r1), ("C08-R2", rule_r2), ("C08-R3", rule_r3), ("C08-R4", rule_r4), ("C08-R5", rule_r5)]
+def rule_r6(ctx):
+    """Every statement of a block is handed to the statement driver - that is where an unsupported
+    construct is refused.  A statement that is left out WITHOUT having been converted (dead code after
+    break / continue / return) is never looked at: `def g(): return 1; yield 2` is a generator
+    function in Python and converts to a plain function."""
+    from .c05 import _PRUNE_KINDS, iter_branch_paths
+    from .common import cached
+
+    rr = RuleResult("C08-R6", "every statement of a block is handed to the driver (converted, hence validated), also the ones that are not emitted")
+    rr.floor = 4
+    seen = set()
+    for label, paths in (("generic", cached(ctx, "iter_branch_paths", lambda: iter_branch_paths(ctx))), ("prune", cached(ctx, "iter_branch_prune_paths", lambda: iter_branch_paths(ctx, _PRUNE_KINDS)))):
+        for pr in paths:
+            if pr.outcome != "ok":
+                continue  # reported by C05-IB
+            rr.instances += 1
+            stmts = pr.extra["stmts"]
+            yielded = pr.extra.get("yielded", [])
+            missing = [i for i, s in enumerate(stmts) if not any(y is s for y in yielded)]
+            what = f"iter_branch|{label}|visited"
+            if missing:
+                first = stmts[missing[0] - 1].kind_label() if missing[0] > 0 else "?"
+                if "dead" not in seen:
+                    seen.add("dead")
+                    rr.fail(
+                        "C08-R6|_iter_branch|statements-not-visited",
+                        f"_PendingCompoundStmt._iter_branch: the statements after a `{first}` statement are dropped without being handed to the driver [{short_ctx(pr, 120)}]. They never run, but they are never checked either: `def g():\\n    return 1\\n    yield 2` (a generator function: list(g()) == []) is accepted and converted to a plain function (TypeError), `try`/`with`/`del` placed there are accepted silently",
+                        what=what,
+                    )
+            else:
+                rr.ok(what)
+    return rr
+
+
+RULES = [("C06-R8", _c06r8), ("C06-R1", _c06r1), ("C07-R4", _c07r4), ("C08-R1", rule_r1), ("C08-R2", rule_r2), ("C08-R3", rule_r3), ("C08-R4", rule_r4), ("C08-R5", rule_r5), ("C08-R6", rule_r6)]
